@@ -149,6 +149,12 @@ def run_reader(stream, pf=7, qe=1, parsing=True, validate=1, msgmode=0, handler=
                 def __bool__(self):
                     return False
             kw["errorhandler"] = _Collector()
+        elif handler == "ret":
+            # a handler that returns something truthy (e.g. file.write's character count): the return value is nobody's
+            def _h(e):
+                reports.append(impl.exn_name(e))
+                return len(reports)
+            kw["errorhandler"] = _h
         elif handler == "method":
             class _Sink:
                 def on_error(self, e):
@@ -189,6 +195,38 @@ def run_reader(stream, pf=7, qe=1, parsing=True, validate=1, msgmode=0, handler=
         reports = ["LOG"] * len(cap.recs)
     return {"items": items, "reports": reports, "raised": raised, "final": final, "table": table,
             "log_records": len(cap.recs), "requested": requested, "exc": foreign}
+
+
+def run_growing(first, rest, use_iter=True, pf=7, qe=0, parsing=True):
+    """The same reader polled again after it reported end of data, the stream having grown meanwhile (a log file
+    being written, a serial line that paused): returns (items of the first pass, items of the second pass, bytes
+    left unread at the end, exception name or None)."""
+    bio = io.BytesIO(first)
+    out = [[], []]
+    err = None
+    try:
+        with impl.quiet(), impl.watchdog(30.0):
+            rdr = UBXReader(bio, protfilter=pf, quitonerror=qe, parsing=parsing)
+            for k in (0, 1):
+                if use_iter:
+                    for raw, parsed in rdr:
+                        out[k].append((bytes(raw), parsed))
+                else:
+                    while True:
+                        raw, parsed = rdr.read()
+                        if raw is None:
+                            break
+                        out[k].append((bytes(raw), parsed))
+                if k == 0:
+                    pos = bio.tell()
+                    bio.seek(0, 2)
+                    bio.write(rest)
+                    bio.seek(pos)
+    except impl.Hang:
+        err = "HANG"
+    except Exception as e:  # pylint: disable=broad-except
+        err = impl.exn_name(e)
+    return out[0], out[1], len(first) + len(rest) - bio.tell(), err
 
 
 def canon_run(obs):
@@ -281,6 +319,8 @@ def frame_pool():
         ("nmeaA", nmea(b"IVDM,1,1,,A,13u?etPv2;0n:dDPwUM1U1Cb069D,0", talker=b"A")),
         # well-framed (valid length and checksum) UBX frames whose payload is too short for a definition with float /
         # array attributes: refused by the UBX parser with UBXTypeError (not a parse or stream error)
+        ("nmea8", b"$GNTXT,01,01,02,ANTENNA OK 25\xc2\xb0C*FC\r\n"),       # non-ASCII text (checksum over the characters)
+        ("nmealc", b"$GNGLL,5327.04,N,00214.41,W,223238.00,A,A*6a\r\n"),     # checksum in lower-case hex
         ("ubxshortR", gen.ubx_frame(0x02, 0x15, bytes(4))),        # RXM-RAWX: rcvTow is R8
         ("ubxshortC", gen.ubx_frame(0x01, 0x36, bytes(18))),       # NAV-COV: R4 members
         ("ubxshortA", gen.ubx_frame(0x0a, 0x31, b"\x00\x01" + bytes(10))),   # MON-SPAN: A256 array
@@ -323,6 +363,7 @@ FRAGMENTS = [b"\x00\x01\x02", b"\xff" * 2, b"\xb5", b"\x24", b"\xd3", b"\xb5\x62
              b"\n", b"\xb5\xb5", b"\xd3\x00", b"\xb5\x62\x01\x02\xff\xff", b"$X", b"\xd3\x04", b"$GNGLL,1",
              # complete, checksummed sentences whose first talker letter is not one pynmeagps lists (not NMEA frames
              # for the reader: '$' is noise followed by text)
+             b"$GNGLL,5327.04,N,00214.41,W,223232.00,A,A*61\n", b"$GNTXT,01,01,02,x*00\r", b"\r\n", b"\r",
              b"$QZGLL,5327.04,N,00214.41,W,223232.00,A,A*62\r\n", b"$XXGGA,1*00\r\n", b"$jkl\r\n"]
 
 
